@@ -14,6 +14,7 @@ type rangeLoopFacts struct {
 	EveryIter   bool // the call executes exactly once in every iteration
 	Element     bool // the call's receiver/value is S[i] of this iteration
 	Paths       []iterPath
+	Complete    bool // Paths lists every iteration path
 }
 
 // analyseRangeLoop finds the innermost loop containing call and extracts the facts.
@@ -101,6 +102,7 @@ func analyseRangeLoop(f *ssa.Function, call ssa.Instruction, recv ssa.Value, isS
 	}
 	paths, complete := loopIterPaths(hdr, 4000)
 	out.Paths = paths
+	out.Complete = complete
 	out.EveryIter = complete && len(paths) > 0
 	for _, pa := range paths {
 		c := 0
